@@ -446,6 +446,17 @@ func (v *Env) ident(name string) Value {
 			}
 		}
 	}
+	// a clause supplied by the caller for code executed in place may use the caller's names
+	if !v.site {
+		for p := v.e.parent; p != nil; p = p.parent {
+			if val, ok := p.lets[name]; ok {
+				return val
+			}
+			if val, ok := p.params[name]; ok {
+				return val
+			}
+		}
+	}
 	// package-level objects
 	if v.pkg != nil {
 		if obj := v.pkg.Scope().Lookup(name); obj != nil {
